@@ -19,7 +19,7 @@ Notation op_len := (op_len GPB).
 Lemma GPB_pos : 0 < GPB.
 Proof. reflexivity. Qed.
 
-Lemma small_fits : 21000 + GPB <= u64max.
+Lemma small_fits : 21000 + GPB + 21000 + GPB <= u64max.
 Proof. apply N.leb_le. reflexivity. Qed.
 
 Theorem C16_gas_per_byte_pinned : GPB = 12000.
@@ -105,37 +105,47 @@ Print Assumptions C16_receipt_gas_le_allowance.
 Print Assumptions C16_oog_changes_only_nonce.
 
 (* eth_estimateGas.  [cap] = CONFIG.evm_call_gas_limit; [checks] = overflow-checks of the build;
-   the arithmetic stays inside u64 when 2*cap and cap + 12000 fit (the default cap is 10^9). *)
+   SAFE = which arithmetic the compiled crate's loop uses (reflected by `hx reflect`: the crate
+   is asked for an estimate with the cap at u64::MAX).  The arithmetic stays inside u64
+   - with the subtraction form (SAFE = true) for every u64 cap,
+   - with the addition form (SAFE = false) when 2*cap and cap + 12000 fit (the default cap is 10^9). *)
+Notation SAFE := ESTIMATE_ARITH_SAFE.
+
+Theorem C16_arith_ok_meaning :
+  forall cap, arith_ok GPB SAFE cap <->
+    (if SAFE then cap <= u64max else cap + cap <= u64max /\ cap + GPB <= u64max).
+Proof. exact (fun cap => match SAFE as b return (arith_ok GPB b cap <-> (if b then cap <= u64max else cap + cap <= u64max /\ cap + GPB <= u64max)) with true => iff_refl _ | false => iff_refl _ end). Qed.
+
 Section Estimate.
   Context {Out : Type}.
   Variable checks : bool.
   Variable cap : N.
   Variable run : N -> option (bool * Out).
-  Notation estimate := (estimate GPB checks cap run).
-  Notation bisect := (bisect GPB checks run).
+  Notation estimate := (estimate GPB SAFE checks cap run).
+  Notation bisect := (bisect GPB SAFE checks run).
   Notation succ := (succ run).
 
   Theorem C16_bisection_terminates :
-    fits GPB (N.max cap 21000) ->
+    arith_ok GPB SAFE (N.max cap 21000) ->
     (forall lo hi, lo <= N.max cap 21000 -> hi <= N.max cap 21000 -> exists r, bisect 64 lo hi = Some r) /\
     exists r, estimate 64 = Some r.
   Proof.
-    exact (fun H => conj (fun lo hi => bisection_terminates_from GPB GPB_pos checks run lo hi _ H)
-                         (estimate_terminates GPB GPB_pos checks cap run H)).
+    exact (fun H => conj (fun lo hi => bisection_terminates_from GPB GPB_pos SAFE checks run lo hi _ H)
+                         (estimate_terminates GPB GPB_pos SAFE checks cap run H)).
   Qed.
 
   (* loop invariant: once the upper end succeeds, whatever the loop returns succeeds *)
   Theorem C16_bisection_returns_succeeding :
     forall f lo hi e, succ hi = true -> bisect f lo hi = Some (Ok e) -> succ e = true.
-  Proof. exact (bisect_succeeding GPB checks run). Qed.
+  Proof. exact (bisect_succeeding GPB SAFE checks run). Qed.
 
   (* the estimate is not minimal: it is within one byte's worth of gas above a limit that
      failed (or above 21000) *)
   Theorem C16_estimate_range :
-    fits GPB cap -> forall f lo hi e, lo <= hi -> hi <= cap -> bisect f lo hi = Some (Ok e) ->
+    arith_ok GPB SAFE cap -> forall f lo hi e, lo <= hi -> hi <= cap -> bisect f lo hi = Some (Ok e) ->
       lo <= e <= hi /\
       exists l, lo <= l /\ e <= l + GPB /\ (l = lo \/ (0 < l /\ succ (l - 1) = false)).
-  Proof. exact (bisect_range GPB GPB_pos checks run cap). Qed.
+  Proof. exact (bisect_range GPB GPB_pos SAFE checks run cap). Qed.
 
   (* The property: the returned estimate E succeeds; rounded up to whole inscription bytes
      it is an allowance of at least E; so for a program whose success and output do not depend
@@ -144,12 +154,12 @@ Section Estimate.
     gas_monotone run -> forall f E, E <= u64max -> estimate f = Some (Ok E) ->
       exists o, run E = Some (true, o) /\ run (gas_limit (ceil_div E)) = Some (true, o) /\
                 E <= gas_limit (ceil_div E).
-  Proof. exact (fun Hm f E => estimate_sufficient GPB GPB_pos checks cap run f E Hm). Qed.
+  Proof. exact (fun Hm f E => estimate_sufficient GPB GPB_pos SAFE checks cap run f E Hm). Qed.
 
   (* a cap below 21000 + 12000: no bisection step, the estimate is the cap *)
   Theorem C16_estimate_small_cap :
     forall f, cap <= 21000 + GPB -> succ cap = true -> estimate (S f) = Some (Ok cap).
-  Proof. exact (fun f Hc Hs => estimate_small_cap GPB GPB_pos checks cap run f Hc small_fits Hs). Qed.
+  Proof. exact (fun f Hc Hs => estimate_small_cap GPB GPB_pos SAFE checks cap run f Hc small_fits Hs). Qed.
 End Estimate.
 Print Assumptions C16_bisection_terminates.
 Print Assumptions C16_bisection_returns_succeeding.
@@ -161,30 +171,35 @@ Print Assumptions C16_estimate_small_cap.
    returned was confirmed by a final run of the whole batch (each position succeeded). *)
 Theorem C16_estimate_many_terminates_and_confirmed :
   forall checks cap (runm : list N -> option (list bool)) n,
-    (fits GPB (N.max cap 21000) -> exists r, estimate_many GPB checks cap runm 64 n = Some r) /\
-    (forall f gs, estimate_many GPB checks cap runm f n = Some (Ok gs) ->
+    (arith_ok GPB SAFE (N.max cap 21000) -> exists r, estimate_many GPB SAFE checks cap runm 64 n = Some r) /\
+    (forall f gs, estimate_many GPB SAFE checks cap runm f n = Some (Ok gs) ->
                   exists sts, runm gs = Some sts /\ forallb (fun b => b) sts = true).
 Proof.
   exact (fun checks cap runm n =>
-           conj (estimate_many_terminates GPB GPB_pos checks cap runm n)
-                (fun f gs => estimate_many_confirmed GPB checks cap runm f n gs)).
+           conj (estimate_many_terminates GPB GPB_pos SAFE checks cap runm n)
+                (fun f gs => estimate_many_confirmed GPB SAFE checks cap runm f n gs)).
 Qed.
 Print Assumptions C16_estimate_many_terminates_and_confirmed.
 
-(* Outside the bound the loop is not safe: with the cap at u64::MAX the first midpoint
-   overflows: a panic with overflow checks, and without them the wrapped midpoints walk the
-   lower bound down to 1 where the loop never ends (fuel runs out at every budget tried). *)
+(* The addition form of the loop is not safe outside its bound: with the cap at u64::MAX the
+   first midpoint overflows: a panic with overflow checks, and without them the wrapped
+   midpoints walk the lower bound down to 1 where the loop never ends (fuel runs out at every
+   budget tried).  The subtraction form answers. *)
 Example C16_cap_overflow_refuted :
   let run := fun g : N => if 50000 <=? g then Some (true, tt) else Some (false, tt) in
-  estimate GPB true u64max run 64 = Some Panic /\
-  estimate GPB false u64max run 64 = None /\ estimate GPB false u64max run 200 = None.
-Proof. vm_compute. repeat split. Qed.
+  estimate GPB false true u64max run 64 = Some Panic /\
+  estimate GPB false false u64max run 64 = None /\ estimate GPB false false u64max run 200 = None /\
+  exists E, estimate GPB true true u64max run 64 = Some (Ok E) /\ 50000 <= E /\ E <= 50000 + GPB.
+Proof.
+  cbv zeta. split; [vm_compute; reflexivity|]. split; [vm_compute; reflexivity|]. split; [vm_compute; reflexivity|].
+  exists 53767. vm_compute. repeat split; discriminate.
+Qed.
 
 (* Non-vacuity: a call that needs 50 000 gas, cap 10^9: the estimate succeeds, lies within
    12 000 of the need, and 5 inscription bytes cover it. *)
 Example C16_nonvacuous :
   let run := fun g : N => if 50000 <=? g then Some (true, tt) else Some (false, tt) in
-  exists E, estimate GPB true 1000000000 run 64 = Some (Ok E) /\ 50000 <= E /\ E <= 50000 + GPB /\
+  exists E, estimate GPB SAFE true 1000000000 run 64 = Some (Ok E) /\ 50000 <= E /\ E <= 50000 + GPB /\
             ceil_div E = 5 /\ run (gas_limit (ceil_div E)) = Some (true, tt).
 Proof. exists 51516. vm_compute. repeat split; discriminate. Qed.
 
